@@ -285,6 +285,7 @@ func evalHTML(c *fw.Ctx, t tally, stream, in string, sample bool) (string, *domF
 		if len(full.Extra) > 0 {
 			flags += "x"
 		}
+		c.Unit()
 		c.NonTrivial(stream + "|" + strings.Join(classes, ",") + "|" + strings.Join(kept, ",") + "|" + flags)
 	}
 	if sample {
@@ -419,6 +420,7 @@ func judgeTextOutput(c *fw.Ctx, t tally, stream, in, out string, sample bool) {
 		}
 	}
 	if f.Anchors > 0 || f.Breaks > 0 || f.SpecialsInput {
+		c.Unit()
 		c.NonTrivial(fmt.Sprintf("%s|sp=%v|a=%d|br=%d|js=%v|split=%v|hd=%v", stream, specials(in), min(f.Anchors, 4), min(f.Breaks, 4),
 			f.JSAnchors > 0, f.EntitySplit, f.HrefNotText > 0))
 	}
